@@ -365,7 +365,7 @@ def parse_units(ctx, src):
     # number branch
     emit(u, 'void JSON_parse_number(StringReader* r, bool disable_extensions, char root_type_ch, JSONV* ret)', arms[2][1],
          'JSON::parse number branch', CC, rules=rr + CTYPE + SET_RULES[:2] + [Lower(READER_MAYTHROW)], ret_zero='',
-         loops={5: E_LOOP, 6: E_LOOP}, nloops=6, desc=PARSE + ' :: number branch')
+         loops={1: 'C04_HEX_LOOP', 2: 'C04_DEC_LOOP', 5: E_LOOP, 6: E_LOOP}, nloops=6, desc=PARSE + ' :: number branch')
     # string branch (whole) and the body of its loop
     srules = rr + STR_RULES + SET_RULES[2:3] + [Lower(READER_MAYTHROW)]
     emit(u, 'void JSON_parse_string(StringReader* r, JSONV* ret, vstr* data)', arms[3][1], 'JSON::parse string branch', CC,
@@ -496,16 +496,18 @@ def escape_units(ctx, src, u):
         PrintfHex(),
         Rule(r'\bret \+= (' + LIT + r');', r'C04_append_lit(ret, \1);', regex=True, count='+'),
         Rule(r'\bret \+= ch;', 'vstr_push_back(ret, ch);', regex=True, count='+'),
-        Rule(r'\breturn ret;', 'return;', regex=True, count=1)]
+        Rule(r'\breturn ret;', 'C04_ESCAPE_END; return;', regex=True, count=1)]
     u.function(src, CC, ESCAPE, new_header='void JSON_escape_string(vstr* ret, const vstr* s, int mode)', rules=rules,
                loops={1: ESCAPE_LOOP}, nloops=1)
     u.block(src, CC, ESCAPE, r'for \(auto ch : s\)', new_header='void JSON_escape_char(vstr* ret, char ch, int mode)', rules=rules[:1] + rules[3:6])
+    if MODES != ['STANDARD', 'HEX', 'CONTROL_ONLY']:
+        raise ExtractionBreak('spec/C04_escape.h numbers the modes STANDARD, HEX, CONTROL_ONLY')
 
 
 ESCAPE_LOOP = """
 __CPROVER_assigns(verif_i, ret->size, __CPROVER_object_whole(ret->data), C04_ESCAPE_GHOSTS)
 __CPROVER_loop_invariant(C04_ESCAPE_LOOP_INV(ret, s, verif_i))
-__CPROVER_decreases(vstr_size(s) - verif_i)
+__CPROVER_decreases(s->size - verif_i)
 """
 
 
@@ -536,12 +538,24 @@ def plan(ctx):
         for mn in (0, 1):
             groups.append(Group(name='JSON.int.roundtrip[%s,%s]' % ('hex' if hexa else 'decimal', 'INT64_MIN' if mn else 'v>INT64_MIN'), harness=HS,
                                 entry='h_int_roundtrip', function='JSON::serialize case 2 (int64) -> JSON::parse number branch', loops=True,
-                                defines=D + ['C04_INT_HEX=%d' % hexa, 'C04_INT_MIN=%d' % mn], kind='bounded',
-                                bound='numeral length <= 20 characters, which covers every int64 value (complete for the domain); loops unwound 21 times',
+                                defines=D + ['C04_INT_HEX=%d' % hexa, 'C04_INT_MIN=%d' % mn, 'C04_INT_LOCKSTEP=1'], kind='loop-contract',
                                 cbmc_flags=['--unwind', '21', '--unwinding-assertions'], min_post=7, timeout=600, stage1=60,
                                 replay=RP('int_roundtrip')))
     groups.append(Group(name='JSON.const.roundtrip', harness=HS, entry='h_const_roundtrip', function='JSON::serialize case 0/1 -> JSON::parse null/true/false arms',
                         defines=list(D), kind='loop-free', min_post=6, replay=RP('const_roundtrip')))
+    HT = 'harness/C04/strings.c'
+    groups.append(Group(name='JSON.string.char_lemma', harness=HT, entry='h_char_lemma', function='JSON::escape_string loop body / JSON::parse string loop body',
+                        defines=list(D), kind='loop-free', min_post=8, replay=RP('char_roundtrip')))
+    groups.append(Group(name='JSON.escape_string', harness=HT, entry='h_escape_string', function='JSON::escape_string', enforce='JSON_escape_string',
+                        loops=True, defines=list(D), kind='loop-contract', min_post=5, timeout=600, stage1=30,
+                        replay=RP('string_roundtrip', small_define='VERIF_SMALL'), fallback_unwind=10))
+    groups.append(Group(name='JSON.string.induction_step', harness=HT, entry='l_string_step', function='JSON::escape_string (contract) / JSON::parse string loop body',
+                        replace=['JSON_escape_string'], defines=list(D), kind='lemma', min_post=5, timeout=300))
+    groups.append(Group(name='JSON.string.serialize_arm', harness=HT, entry='l_string_arm', function='JSON::serialize case 4 (string)',
+                        replace=['JSON_escape_string'], defines=list(D), kind='lemma', min_post=7, timeout=300))
+    groups.append(Group(name='JSON.string.roundtrip[len<=2]', harness=HT, entry='h_string_bounded', function='JSON::serialize case 4 -> JSON::parse string branch',
+                        defines=D + ['C04_STRMAX=2'], kind='bounded', bound='strings of at most 2 bytes (every byte value, every option set); loops unwound 4 times',
+                        cbmc_flags=['--unwind', '4', '--unwinding-assertions'], min_post=5, timeout=600, stage1=60, replay=RP('string_roundtrip')))
     return groups
 
 
